@@ -33,6 +33,22 @@ def oc_str(o):
     return "Err(%s,%s)" % (o[1][0], o[1][1])
 
 
+RT_BY_VALUE = {20: "ChangeCipherSpec", 21: "Alert", 22: "Handshake", 23: "ApplicationData", 24: "Heartbeat"}
+
+
+def rt_of_value(v):
+    return RT_BY_VALUE.get(v, "0x%02x" % v)
+
+
+def rt_set_of(values):
+    """a test of the record's content type given by the code points it accepts (the complement when that is smaller)"""
+    values = sorted(set(values))
+    if len(values) <= 128:
+        return ("rtset", tuple(sorted(rt_of_value(x) for x in values)), True)
+    rest = [x for x in range(256) if x not in set(values)]
+    return ("rtset", tuple(sorted(rt_of_value(x) for x in rest)), False)
+
+
 class Unrec(Exception):
     pass
 
@@ -198,7 +214,8 @@ class SemExec:
         if p == NONE:
             return [(("opt", None), env, st)]
         if p.startswith("tls_record::TlsRecordType::") and dk.startswith("AssocConst"):
-            return [(("rtconst", rt_name(p), e.get("val")), env, st)]
+            # named by value: the identity of a content type is its code point
+            return [(("rtconst", rt_of_value(e["val"]) if e.get("val") is not None else rt_name(p), e.get("val")), env, st)]
         if p.startswith("nom::error::ErrorKind::"):
             return [(("errkindc", rt_name(p)), env, st)]
         if p.startswith("nom::internal::Needed::"):
@@ -272,6 +289,13 @@ class SemExec:
 
     def ev_struct(self, e, env, st, depth):
         rp = e["res"].get("path", "")
+        if rp.startswith("core::ops::range::Range") and e.get("base") is None:
+            names = [f["name"] for f in e["fields"]]
+            out = []
+            for vals, s in self.seq_args([f["e"] for f in e["fields"]], env, st, depth):
+                fv = dict(zip(names, vals))
+                out.append((("range", fv.get("start"), fv.get("end"), "Inclusive" in rp), env, s))
+            return out
         if rp == "tls_record::TlsRecordHeader":
             fs = {f["name"]: f["e"] for f in e["fields"]}
             base = e.get("base")
@@ -372,6 +396,13 @@ class SemExec:
             return self.size_atom(op, ("len", tuple(a[1]) + tuple(b[2]), "sat"), b[1])
         if a[0] == "int" and b[0] == "int":
             return ("bool", {"<": a[1] < b[1], "<=": a[1] <= b[1], ">": a[1] > b[1], ">=": a[1] >= b[1]}[op])
+        if a[0] == "int" and b[0] == "rtnum":
+            a, b = b, a
+            op = {"<": ">", "<=": ">=", ">": "<", ">=": "<="}[op]
+        if a == ("rtnum", "RT") and b[0] == "int":
+            # an order test of the content-type byte: the set of code points it accepts
+            f = {"<": lambda x: x < b[1], "<=": lambda x: x <= b[1], ">": lambda x: x > b[1], ">=": lambda x: x >= b[1]}[op]
+            return rt_set_of([x for x in range(256) if f(x)])
         raise Unrec("comparison %s of %s and %s" % (op, a[0], b[0]))
 
     def size_atom(self, op, ln, k):
@@ -386,6 +417,8 @@ class SemExec:
 
     def equal(self, a, b, st):
         for x, y in ((a, b), (b, a)):
+            if x[0] == "rtnum" and y[0] == "int":
+                return ("rtset", (rt_of_value(y[1]),), True) if x[1] == "RT" else self.unrec("comparison of the stored type with a constant")
             if x[0] == "rtv" and y[0] == "rtconst":
                 return ("rtset", (y[1],), True) if x[1] == "RT" else self.unrec("comparison of the stored type with a constant")
             if x[0] == "rtv" and y[0] == "rtv":
@@ -775,6 +808,8 @@ class SemExec:
             return [(("nomerror", kv[1]), env, st)]
         if fp in ("alloc::vec::Vec::<T>::new",):
             return [(("buf", ()), env, st)]
+        if fp == "core::ops::range::RangeInclusive::<Idx>::new" and len(args) == 2:
+            return [(("range", vals[0], vals[1], True), env, s) for vals, s in self.seq_args(args, env, st, depth)]
         if fp and (fp.endswith("Default::default") or fp.endswith("core::default::Default>::default")):
             ty = e.get("ty", "")
             if ty.startswith("alloc::vec::Vec<"):
@@ -918,6 +953,15 @@ class SemExec:
                     if vals[0][0] != "len":
                         raise Unrec("saturating_sub of " + vals[0][0])
                     out.append((("satdiff", rv[1], tuple(vals[0][1])), env, s2))
+                continue
+            if rv[0] == "range" and name == "contains":
+                for vals, s2 in self.seq_args(e["args"], env, s, depth):
+                    lo, hi, incl = rv[1], rv[2], rv[3]
+                    if vals[0] != ("rtnum", "RT") or (lo is not None and lo[0] != "int") or (hi is not None and hi[0] != "int"):
+                        raise Unrec("range test of " + vals[0][0])
+                    lo_ = 0 if lo is None else lo[1]
+                    hi_ = 255 if hi is None else (hi[1] if incl else hi[1] - 1)
+                    out.append((rt_set_of([x for x in range(256) if lo_ <= x <= hi_]), env, s2))
                 continue
             if rv[0] == "rtarray" and name == "contains":
                 for vals, s2 in self.seq_args(e["args"], env, s, depth):
